@@ -189,6 +189,7 @@ pub fn run(outdir: &Path, tier: &str, seed: u64, shards: usize, _replay: Option<
             prelude: String::new(),
             exposed: vec![Exposed { key: "resp".into(), path: "q::ResponseData".into(), de: true, ser: true }],
             custom: vec![],
+            outer: String::new(),
         });
         let built = cons.build();
         let field_inputs: Vec<Option<Value>> = vec![
